@@ -3,7 +3,7 @@
    "the same" when they are the same TERM over stored variables, keyword values and compute calls. *)
 From Coq Require Import ZArith List Bool Arith PeanoNat.
 From VP Require Import ObjModel ObjNames ObjApi ObjChecks.
-From VP Require ObjModel ObjNames NbModel NbApi NbChecks.
+From VP Require ObjModel ObjNames NbModel NbApi NbChecks NpApi NpChecks.
 Import ObjNames List.ListNotations.
 
 (* px,py,pt,pt2,pz,p,p2,pseudorapidity,E/e/energy,E2..,M/m/mass,M2.. are the expressions of x,y,rho,rho2,z,mag,mag2,eta,t,t2,tau,tau2;
@@ -29,6 +29,13 @@ Theorem C14_compiled_momentum_are_the_interpreted_ones :
   VP.NbChecks.agree_on [N_px; N_py; N_pt; N_pt2; N_pz; N_pseudorapidity; N_p; N_p2; N_E; N_energy; N_E2; N_energy2; N_M; N_mass; N_M2; N_mass2; N_Et; N_transverse_energy; N_Et2; N_transverse_energy2; N_Mt; N_transverse_mass; N_Mt2; N_transverse_mass2]%list = true /\
   Nat.ltb 100 (VP.NbChecks.count_on [N_px; N_py; N_pt; N_pt2; N_pz; N_pseudorapidity; N_p; N_p2; N_E; N_energy; N_E2; N_energy2; N_M; N_mass; N_M2; N_mass2; N_Et; N_transverse_energy; N_Et2; N_transverse_energy2; N_Mt; N_transverse_mass; N_Mt2; N_transverse_mass2]%list) = true.
 Proof. vm_cast_no_check (conj (eq_refl true) (eq_refl true)). Qed.
+
+
+(* NumPy arrays (the real backend executed symbolically, T6): every momentum synonym, read as an attribute or as a field name
+   a["px"], is elementwise what the object backend's synonym returns (hence, by the theorems above, the geometric coordinate) *)
+Theorem C14_numpy_synonyms_are_the_object_synonyms :
+  VP.NpChecks.np_agree_on [N_px; N_py; N_pt; N_pt2; N_pz; N_pseudorapidity; N_p; N_p2; N_E; N_energy; N_E2; N_energy2; N_M; N_mass; N_M2; N_mass2; N_Et; N_transverse_energy; N_Et2; N_transverse_energy2; N_Mt; N_transverse_mass; N_Mt2; N_transverse_mass2; N_e; N_e2; N_m; N_m2; N_et; N_et2; N_mt; N_mt2; N_field_px; N_field_py; N_field_pt; N_field_pz; N_field_E; N_field_e; N_field_energy; N_field_M; N_field_m; N_field_mass]%list = true.
+Proof. vm_cast_no_check (eq_refl true). Qed.
 
 Example C14_nonvacuous :
   existsb (fun e => match e with (s, n, OutScalar _) => s_mom s && Pos.eqb n N_mass | _ => false end) getters_tab = true /\
